@@ -122,6 +122,8 @@ def main():
         do_import(a[1], int(a[2]), "out2", 2); return
     if a[0] == "import4":  # round 4: /tmp/wt/<ID>/out4/patchN -> seeded/<ID>-(N+6)
         do_import(a[1], int(a[2]), "out4", 6); return
+    if a[0] == "import9":  # round 9: /tmp/wt/<ID>/out9/patchN -> seeded/<ID>-(N+16)
+        do_import(a[1], int(a[2]), "out9", 16); return
     if a[0] == "import8":  # round 8: /tmp/wt/<ID>/out8/patchN -> seeded/<ID>-(N+14)
         do_import(a[1], int(a[2]), "out8", 14); return
     if a[0] == "import7":  # round 7: /tmp/wt/<ID>/out7/patchN -> seeded/<ID>-(N+12)
